@@ -249,7 +249,10 @@ DEC_POOL = ["[C][=C][Branch1][C][O][C][Ring1][Ring2][{u}OH1]", "[N][{u}OH1][C]",
             "[C][C@@H1][Branch1][C][F][Cl]", "[S][=Branch1][C][=O][=Branch1][C][=O][{u}O]", "[C][C][Xx]", "[{u}N+1][=C][Fe+3][#C]",
             "[C][Branch1][=Branch1][{u}C][Branch1][C][F][Cl][Br].[Na+1]", "[C][/C][=C][\\{u}F]"]
 ENC_POOL = ["c1ccccc1[C@H](F)Cl", "[{u}CH3]C(=O)O", "c1ccc2ccccc2c1", "[nH]1cccc1C[{u}N]", "C1CC1C(C(F)Cl)Br", "F/C=C/[{u}F]",
-            "c1ccccc1c1ccncc1", "C(", "[{u}Fe+3].[O-]C", "O=C1NC=NC2=C1N=CN2[{u}C@@H]1CCCO1"]
+            "c1ccccc1c1ccncc1", "C(", "[{u}Fe+3].[O-]C", "O=C1NC=NC2=C1N=CN2[{u}C@@H]1CCCO1",
+            # systems on which the greedy phase of the matching is not perfect (augmenting paths / blossoms are needed)
+            "c1cc2c3ccccc3sc2c2ccccc12", "c1ccc2c(c1)c1cccc3cccc2c31", "c1cc2cccc3ccc4cccc1c4c32", "c1c2cccc2c2cccccc12",
+            "c1ccc2cc3cc4ccccc4cc3cc2c1.[{u}C]", "c12c3c4c5c1c1c6c7c2c2c8c3c3c9c4c4c%10c5c5c1c1c6c6c%11c7c2c2c7c8c3c3c8c9c4c4c9c%10c5c5c1c1c6c6c%11c2c2c7c3c3c8c4c4c9c5c1c1c6c2c3c41"]
 
 
 def gen_jobs(ch):
